@@ -624,6 +624,65 @@ async fn handler(w: W, progs: Rc<Value>, expect: Rc<Value>, mut req: Request) ->
         payload = None;
     }
     // "step": the whole body, but every chunk only after one more handler token
+    if read == "task" {
+        // the body is consumed by a task of its own (its wake-ups are not the connection task's): one chunk per scheduling turn;
+        // the handler only waits for that task to finish
+        struct Shared {
+            done: bool,
+            waker: Option<std::task::Waker>,
+        }
+        struct DoneFut(Rc<RefCell<Shared>>);
+        impl Future for DoneFut {
+            type Output = ();
+            fn poll(self: Pin<&mut Self>, cx: &mut Context<'_>) -> Poll<()> {
+                let mut s = self.0.borrow_mut();
+                if s.done {
+                    Poll::Ready(())
+                } else {
+                    s.waker = Some(cx.waker().clone());
+                    Poll::Pending
+                }
+            }
+        }
+        let shared = Rc::new(RefCell::new(Shared { done: false, waker: None }));
+        let (sh2, w2) = (shared.clone(), w.clone());
+        let mut pl = payload.take().unwrap();
+        tokio::task::spawn_local(async move {
+            let mut off = 0usize;
+            loop {
+                let item = std::future::poll_fn(|cx| Pin::new(&mut pl).poll_next(cx)).await;
+                match item {
+                    Some(Ok(b)) => {
+                        let ok = b.iter().enumerate().all(|(j, &x)| x == req_pat(i, off + j));
+                        off += b.len();
+                        let mut wb = w2.borrow_mut();
+                        wb.handed += b.len();
+                        wb.handed_cur += b.len();
+                        if !wb.quiet {
+                            wb.ev(json!({"ev":"BodyIn","i":i,"n":b.len(),"ok":ok}));
+                        } else {
+                            wb.progress += 1;
+                        }
+                    }
+                    Some(Err(_)) => {
+                        w2.borrow_mut().ev(json!({"ev":"BodyEnd","i":i,"how":"incomplete","n":off}));
+                        break;
+                    }
+                    None => {
+                        w2.borrow_mut().ev(json!({"ev":"BodyEnd","i":i,"how":"eof","n":off}));
+                        break;
+                    }
+                }
+                tokio::task::yield_now().await;
+            }
+            let mut s = sh2.borrow_mut();
+            s.done = true;
+            if let Some(wk) = s.waker.take() {
+                wk.wake();
+            }
+        });
+        DoneFut(shared).await;
+    }
     let limit: usize = if read == "all" || read == "step" { usize::MAX } else if let Some(k) = read.strip_prefix("n:") { k.parse().unwrap_or(0) } else { 0 };
     let mut got = 0usize;
     let mut off = 0usize;
@@ -866,6 +925,16 @@ pub fn run_case(case: &Value) -> Vec<Value> {
                     tokio::task::yield_now().await;
                     if done {
                         break;
+                    }
+                    if cw.0.load(Ordering::SeqCst) == 0 {
+                        // other tasks of the connection's runtime (a body consumer running on its own) get their turns; they may
+                        // wake the connection task
+                        for _ in 0..32 {
+                            tokio::task::yield_now().await;
+                            if cw.0.load(Ordering::SeqCst) != 0 {
+                                break;
+                            }
+                        }
                     }
                     if cw.0.swap(0, Ordering::SeqCst) == 0 {
                         break;
